@@ -9,6 +9,7 @@
      (no skip/take/rev/filter);
  (d) Node::CaptureGroup is constructed only by the parser (and by derive(Clone)).
 """
+import json
 import re
 
 from . import core
@@ -168,7 +169,21 @@ def check(facts):
         loops = natural_loops(b)
         is_some_blocks = [bb for bb, t in b.iter_calls() if (t.get("callee") or "").endswith("Option::<T>::is_some")]
         key = "%s duplicate scan exits early only on a participating duplicate" % ng[0]
-        if not is_some_blocks:
+        # iterator form: `.find_map(|i| captures[i].clone())` continues past None and stops at the first Some by contract
+        fm = [t for bb, t in b.iter_calls() if (t.get("callee") or "").endswith("Iterator::find_map")]
+        fm_ok = False
+        for t in fm:
+            for cl in [n for n in facts.body_names() if n.startswith(ng[0] + "::{closure")]:
+                cb = facts.body(cl)
+                reads = any(s["k"] == "assign" and "captures" in json.dumps(s["rv"]) for _, _, s in cb.iter_stmts()) or \
+                    any("captures" in json.dumps(tt.get("args")) for _, tt in cb.iter_calls())
+                rets_opt = "Option<std::ops::Range<usize>>" in cb.local_ty(0).replace("core::", "std::")
+                if reads and rets_opt:
+                    fm_ok = True
+        in_loop = [bb for bb in is_some_blocks if any(bb in nodes for nodes in loops.values())]
+        if fm_ok and not in_loop:
+            r.ok(key, "find_map over the later captures (first participating duplicate by contract)")
+        elif not is_some_blocks:
             r.fail(key, "no is_some() participation test found in the duplicate scan", facts.loc(ng[0]))
         else:
             isb = is_some_blocks[0]
